@@ -552,6 +552,75 @@ func streamParse3(seed uint64, thorough bool) {
 			emitParse3(w, b, s1, s2)
 		}
 	}
+	// (d) byte-count sweep: for every byte-counted frame kind, a valid header up to the count byte,
+	// the count byte set to every value 0..255, and total lengths around the count position and
+	// around the lengths at which 8-bit index arithmetic would wrap; large junk capacity so that an
+	// over-long re-slice reads stale bytes instead of panicking
+	big1 := make([]byte, 600)
+	big2 := make([]byte, 600)
+	for i := range big1 {
+		big1[i] = byte(r.u8())
+		big2[i] = ^big1[i]
+	}
+	type bcKind struct {
+		tcp   bool
+		fc    byte
+		pos   int // index of the count byte
+		codes []int
+	}
+	var kinds []bcKind
+	for _, fc := range []byte{15, 16} {
+		kinds = append(kinds, bcKind{true, fc, 12, []int{int(fc), 200}}, bcKind{false, fc, 6, []int{100 + int(fc), 201, 202}})
+	}
+	kinds = append(kinds, bcKind{true, 23, 16, []int{23, 200}}, bcKind{false, 23, 10, []int{123, 201, 202}})
+	for _, fc := range []byte{1, 2, 3, 4, 23, 17} {
+		kinds = append(kinds, bcKind{true, fc, 8, []int{1000 + int(fc), 300}}, bcKind{false, fc, 2, []int{1100 + int(fc), 301, 302}})
+	}
+	for _, k := range kinds {
+		for bc := 0; bc < 256; bc++ {
+			if !thorough && bc > 8 && bc < 240 && bc%16 != 0 {
+				continue
+			}
+			lens := map[int]bool{}
+			for d := 0; d <= 4; d++ {
+				lens[k.pos+1+d] = true
+			}
+			for _, d := range []int{0, 1, 2, 3} {
+				lens[(k.pos+1+bc)&0xff+d] = true
+				lens[k.pos+1+bc+d] = true
+				lens[k.pos+1+bc-d] = true
+			}
+			for total := range lens {
+				if total <= k.pos || total > 300 {
+					continue
+				}
+				b := r.bytes(total)
+				off := 0
+				if k.tcp {
+					b[2], b[3] = 0, 0
+					putU16(b, 4, uint16(total-6))
+					off = 6
+				}
+				b[off+1] = k.fc
+				// plausible quantities so that the range checks pass
+				if k.pos-off >= 6 {
+					putU16(b, off+4, uint16(1+r.intn(120)))
+				}
+				if k.pos-off >= 10 {
+					putU16(b, off+8, uint16(1+r.intn(120)))
+				}
+				b[k.pos] = byte(bc)
+				for _, w := range k.codes {
+					v := b
+					if w == 202 || w == 302 {
+						v = append([]byte(nil), b...)
+						fixCRC(v)
+					}
+					emitParse3(w, v, big1, big2)
+				}
+			}
+		}
+	}
 	for _, n := range []int{70000, 65542} {
 		b := r.bytes(n)
 		b[2], b[3] = 0, 0
